@@ -651,7 +651,7 @@ async fn run_mutants(c: &MutCase, info: &mut CaseInfo) -> CheckResult {
 fn prefix_strategy() -> impl Strategy<Value = Vec<Op>> {
     prop_oneof![
         1 => Just(vec![]),
-        3 => ("[a-z]{1,8}", 0u8..4, "[ -~]{1,20}").prop_map(|(name, flags, text)| vec![
+        3 => ("[a-z]{1,8}", 0u8..8, "[ -~]{1,20}").prop_map(|(name, flags, text)| vec![
             Op::CreateFolder { name, flags },
             Op::SetDescription { folder: u16::MAX, text },
         ]),
